@@ -965,3 +965,47 @@ func VerifC04DependencyOnly() {
 	vassert(err == nil, "workflow compiles")
 	c04Agree(r, "", false, "dependency-only node")
 }
+
+// A node typed any behind an input key, fed a map that holds nil under that key (the zero value of the node's input
+// type): the four paradigms give the same verdict.
+func VerifC04InputKeyNil() {
+	ctx := context.Background()
+	vcfg("fifo", 1)
+	vcfg("selectfirst", 1)
+	g := NewGraph[map[string]any, string]()
+	_ = g.AddLambdaNode("n", InvokableLambda(func(ctx context.Context, in any) (string, error) {
+		if in == nil {
+			return "nil", nil
+		}
+		return "value", nil
+	}), WithInputKey("k"))
+	_ = g.AddEdge(START, "n")
+	_ = g.AddEdge("n", END)
+	r, err := g.Compile(ctx)
+	vassert(err == nil, "graph compiles")
+	var v any
+	if vchoose("value", 2) == 1 {
+		v = 5
+	}
+	in := map[string]any{"k": v}
+	var outs [4]string
+	var errs [4]error
+	outs[0], errs[0] = r.Invoke(ctx, in)
+	if sr, e := r.Stream(ctx, in); e != nil {
+		errs[1] = e
+	} else {
+		outs[1], errs[1] = c04Drain(sr)
+	}
+	outs[2], errs[2] = r.Collect(ctx, schema.StreamReaderFromArray([]map[string]any{in}))
+	if sr, e := r.Transform(ctx, schema.StreamReaderFromArray([]map[string]any{in})); e != nil {
+		errs[3] = e
+	} else {
+		outs[3], errs[3] = c04Drain(sr)
+	}
+	for k := 1; k < 4; k++ {
+		vassert((errs[k] == nil) == (errs[0] == nil), "a nil (or any) value under the input key of an any-typed node: "+c04ParNames[k]+" gives the verdict Invoke gives")
+		if errs[k] == nil && errs[0] == nil {
+			vassert(outs[k] == outs[0], c04ParNames[k]+" gives the result Invoke gives")
+		}
+	}
+}
